@@ -2,7 +2,7 @@
    Only statements, [exact] and [Print Assumptions] live here. *)
 From Coq Require Import List Arith Bool NArith.
 From GV Require Import Base.Result Gen.TokenTypes Gen.Defs Model.Parser Spec.RefTable Spec.Pratt Spec.Chains
-  Proofs.C02.Table Proofs.C02.Triples Proofs.C02.Chains Proofs.C02.OpExpr.
+  Proofs.C02.Table Proofs.C02.Triples Proofs.C02.Chains Proofs.C02.OpExpr Proofs.C02.Full.
 Import ListNotations.
 
 (* (a) the priority map extracted from parser.rs orders every pair of definitions as
@@ -39,8 +39,8 @@ Theorem C02_brackets_override : forall (o1 o2 : token_type) (toks : list token_t
 Proof. exact c02_brackets_override. Qed.
 Print Assumptions C02_brackets_override.
 
-(* (c) the unbounded statement: not proved (needs the refinement of the parent-linked
-   node array to a stack of right-spine frames) *)
+(* (c) the unbounded statement (proved at the end of this file as C02_full, through the
+   refinement of the parent-linked node array to a stack of right-spine frames) *)
 Definition C02_full_statement : Prop := forall toks : list token_type, c02_agree toks = true.
 
 (* non-vacuity and what the reference means on concrete inputs *)
@@ -219,7 +219,32 @@ Example C02_ex_bracketed_rejects :
   operator_expression [TT_StartGroup; TT_Number; TT_EndGroup] = true.
 Proof. vm_compute. repeat split; reflexivity. Qed.
 
-(* (f) what is still not proved without a bound: nested expressions { } and side effects
-   [ ], separators, annotations, leading/trailing whitespace, and the claim for token lists
-   that are not expressions (there the reference is undefined and c02_agree holds
-   trivially, but that is not proved here); C02_full_statement above stays stated. *)
+(* (f) THE FULL STATEMENT, for every token list whatsoever: whenever the reference
+   precedence-climbing parser over the pinned table is defined on [toks] (it is defined
+   exactly on the operator expressions of (e), possibly surrounded by whitespace; any token
+   outside the fragment -- braces, side-effect brackets, separators, annotations, unknown --
+   makes it undefined), parse accepts [toks] and returns exactly the reference tree, token
+   positions included.  No bound on length, nesting depth or number of operators.
+   Proof: Proofs/C02/Full.v -- a successful climb consumes a well-formed item list
+   (converse direction), a well-formed item list comes from a well-formed token list,
+   trimming shifts token indices by the number of tokens cut at the front; then (e). *)
+Theorem C02_full : C02_full_statement.
+Proof. exact c02_full. Qed.
+Print Assumptions C02_full.
+
+(* the reference is defined on the samples above (so C02_full is not vacuous on them), also
+   with surrounding whitespace, and undefined on non-expressions *)
+Example C02_ex_full_nonvacuous :
+  (match pratt C02_sample_chain with Some _ => true | None => false end) = true /\
+  (match pratt C02_sample_expression with Some _ => true | None => false end) = true /\
+  (match pratt C02_sample_bracketed with Some _ => true | None => false end) = true /\
+  pratt [TT_Whitespace; TT_Number; TT_PlusSign; TT_Number; TT_Whitespace]
+    = Some (RBin D_Addition (Some 2) (RAtom D_Number 1) (RAtom D_Number 3)) /\
+  pratt [TT_Number; TT_PlusSign] = None /\
+  pratt [TT_StartExpression; TT_Number; TT_EndExpression] = None.
+Proof. vm_compute. repeat split; reflexivity. Qed.
+
+(* (g) what C02_full does not say: nothing about token lists on which the reference is
+   undefined -- nested expressions { }, side effects [ ], separators, annotations (for
+   those the bounded theorems (b) and the differential runs of the check remain the
+   evidence), and nothing about what parse does with non-expressions (that is C03/C04). *)
